@@ -55,6 +55,13 @@ static const char* const point_names[FV_POINT_MAX] = {
     [FV_SCHED_SWAP] = "SCHED_SWAP",
     [FV_HP_PUBLISH_PRE] = "HP_PUBLISH_PRE",
     [FV_HP_RELEASED] = "HP_RELEASED",
+    [FV_COND_SIGNAL_MID] = "COND_SIGNAL_MID",
+    [FV_SEM_POST_MID] = "SEM_POST_MID",
+    [FV_RW_HANDOFF] = "RW_HANDOFF",
+    [FV_BARRIER_LAST] = "BARRIER_LAST",
+    [FV_JOIN_CLAIMED] = "JOIN_CLAIMED",
+    [FV_COMPLETION_CLAIMED] = "COMPLETION_CLAIMED",
+    [FV_MUTEX_UNLOCK_MID] = "MUTEX_UNLOCK_MID",
 };
 
 #define VP_NPOINTS 128  // library points < FV_POINT_MAX, harness-private points 100..127
@@ -539,15 +546,17 @@ static void* wd_main(void* arg) {
       // logical steps without a single completed client operation. Pure spinning (cpu_relax) is judged against a far
       // larger bound: under kernel-thread oversubscription a ticket-lock convoy legitimately spins for a long time.
       const uint64_t p = atomic_load(&vp_progress_ctr);
-      const long h = vp_hook_hits(FV_SWITCH_PRE) + vp_hook_hits(FV_WAKE_SPIN) + vp_hook_hits(FV_CAS2_PRE);
-      const long rx = vp_hook_hits(FV_CPU_RELAX);
+      // steps = context switches; tight in-place spins (cpu_relax, the wake loop waiting for an announced waiter, CAS2
+      // retries) are all "pure spinning"
+      const long h = vp_hook_hits(FV_SWITCH_PRE);
+      const long rx = vp_hook_hits(FV_CPU_RELAX) + vp_hook_hits(FV_WAKE_SPIN) + vp_hook_hits(FV_CAS2_PRE);
       if (p != last_p) {
         last_p = p;
         base_h = h;
         base_rx = rx;
       } else if (h - base_h > livelock_hits || rx - base_rx > relax_limit) {
         vp_violation(vp_param_str("livelock_prop", "C02"), "livelock",
-                     "no client operation completed during %ld switch/wake-spin steps and %ld cpu_relax spins (totals: relax=%ld switch=%ld wakespin=%ld)",
+                     "no client operation completed during %ld context switches and %ld in-place spins (totals: spins=%ld switches=%ld wake-spins=%ld)",
                      h - base_h, rx - base_rx, rx, vp_hook_hits(FV_SWITCH_PRE), vp_hook_hits(FV_WAKE_SPIN));
         if (g_runtime_mode) vp_ghost_dump(stderr, 40);
         vp_finish();
